@@ -26,6 +26,7 @@ SYNTH = '''
 import enum
 import dataclasses
 import math
+import itertools
 import numpy as np
 
 class Kind(enum.IntEnum):
@@ -107,6 +108,31 @@ def ranges(a, b):
     s -= i
   return s
 
+class Obj:
+  def helper(self, d):
+    if self._k:
+      return [d, d * self._k]
+    return [d, d]
+
+  def maybe(self, xs):
+    if len(xs) > 1:
+      return xs[1:3]
+
+  def user(self, ls, n):
+    out = []
+    for t in itertools.product(*ls):
+      out.extend(map(self.helper, t[:-1]))
+    got = self.maybe(out)
+    assert n >= 0
+    first = got[0]
+    return (len(out), any(x[0] > n for x in out), all([x[1] >= n for x in out]), first, got)
+
+def slots(ps, a, b, n):
+  q = ps[a:b]
+  if n > 2:
+    q = [None] * (n - 2) + q
+  return q
+
 def branch_local(xs):
   out = []
   for x in xs:
@@ -129,6 +155,11 @@ SYNTH_TARGETS = [
     Target("synth.py", "arrays", "arrays", [("n", "int"), ("b", "int")], "tuple[arr,arr,bool]"),
     Target("synth.py", "ranges", "ranges", [("a", "int"), ("b", "int")], "int"),
     Target("synth.py", "branch_local", "branchLocal", [("xs", "list[int]")], "list[int]"),
+    Target("synth.py", "Obj.helper", "objHelper", [("k", "int"), ("d", "int")], "list[int]", inputs={"self._k": "k"}),
+    Target("synth.py", "Obj.maybe", "objMaybe", [("xs", "list[list[int]]")], "list[list[int]]"),
+    Target("synth.py", "Obj.user", "objUser", [("k", "int"), ("ls", "list[list[int]]"), ("n", "int")],
+           "tuple[int,bool,bool,list[int],list[list[int]]]", inputs={"self._k": "k"}),
+    Target("synth.py", "slots", "slots", [("ps", "list[option[int]]"), ("a", "int"), ("b", "int"), ("n", "int")], "list[option[int]]"),
 ]
 
 LISTS = [[], [3], [1, 5], [4, 1, 6], [2, 2, 9, 0], [7, 3, 3, 8, 1]]
@@ -143,6 +174,10 @@ SYNTH_INPUTS = {
     "arrays": [(n, b) for n in (-1, 0, 1, 2, 4) for b in (1, 2, 3)],
     "ranges": [(a, b) for a in (-2, 0, 1, 3) for b in (-1, 0, 2, 5)],
     "branch_local": [(xs,) for xs in LISTS],
+    "Obj.helper": [(k, d) for k in (0, 2, -1) for d in (0, 3)],
+    "Obj.maybe": [(xs,) for xs in ([], [[1]], [[1], [2, 3]], [[1], [2], [3], [4]])],
+    "Obj.user": [(k, ls, n) for k in (0, 3) for ls in ([], [[2]], [[1, 2], [3]], [[1, 2], [3, 4], [5]], [[4], [], [1]]) for n in (-1, 0, 2)],
+    "slots": [(ps, a, b, n) for ps in ([], [0, None, 2], [5, 6, 7, 8]) for a in (-5, -1, 0, 1, 2) for b in (-2, 0, 1, 3, 9) for n in (0, 3, 4)],
 }
 
 BAD = {
@@ -158,7 +193,7 @@ BAD = {
     "string": "def f(n):\n  return 'a'\n",
     "type change at merge": "def f(n):\n  y = 1\n  if n > 0:\n    y = [1]\n  return n\n",
     "in": "def f(n):\n  return n in [1, 2]\n",
-    "assert": "def f(n):\n  assert n > 0\n  return n\n",
+    "assert inside a loop": "def f(xs):\n  s = 0\n  for x in xs:\n    assert x > 0\n    s += x\n  return s\n",
     "tuple assign": "def f(n):\n  a, b = n, n\n  return a\n",
     "two generators": "def f(n):\n  return [i + j for i in range(n) for j in range(n)]\n",
 }
@@ -188,6 +223,8 @@ def lit(v, t):
     t = py2lean.res(t)
     if t == "int":
         return f"({v} : Int)"
+    if isinstance(t, tuple) and t[0] == "option":
+        return "none" if v is None else f"(some {lit(v, t[1])})"
     if t == "bool":
         return "true" if v else "false"
     if t == "arr":
@@ -215,7 +252,8 @@ def lean_eval(defs_text, checks):
         os.unlink(path)
     lines = [l.strip() for l in out.split("\n") if l.strip()]
     if rc != 0 or len(lines) != len(checks):
-        return [f"lean failed (rc={rc}, {len(lines)} results for {len(checks)} checks): {(out + err)[-1500:]}"]
+        errs = [l for l in (out + err).split("\n") if l.strip() and l.strip() not in ("true", "false")]
+        return [f"lean failed (rc={rc}, {len(lines)} results for {len(checks)} checks): " + " | ".join(errs[:6])[:1500]]
     return [lab for (lab, _), l in zip(checks, lines) if l != "true"]
 
 
@@ -235,12 +273,24 @@ def main():
     ns = {}
     exec(compile(SYNTH, "synth.py", "exec"), ns)
     checks = []
+    optional = {r["function"].split("::")[1]: r.get("option") for r in info}
     for t in SYNTH_TARGETS:
         rty = parse_type(t.ret)
-        opt = t.qual == "elifs"
+        opt = optional[t.qual]
         for args in SYNTH_INPUTS[t.qual]:
             try:
-                want = to_plain(ns[t.qual](*[list(a) if isinstance(a, list) else a for a in args], *(["x"] * len(t.opaque))))
+                pargs = [list(a) if isinstance(a, list) else a for a in args]
+                if t.qual.startswith("Obj."):
+                    o = ns["Obj"]()
+                    if "self._k" in t.inputs:
+                        o._k, pargs = pargs[0], pargs[1:]
+                    want = to_plain(getattr(o, t.qual.split(".")[1])(*pargs))
+                else:
+                    want = to_plain(ns[t.qual](*pargs, *(["x"] * len(t.opaque))))
+            except (AssertionError, TypeError):
+                if not opt:
+                    continue
+                want = None     # failed assert / operation on None: `none` ("no value") in the translation
             except (IndexError, ZeroDivisionError, ValueError):
                 continue        # Python raises: outside the translated domain
             wt = ("option", rty) if opt else rty
@@ -282,6 +332,20 @@ def main():
                 want = to_plain(pre.should_precondition_dims())
                 ss = to_plain(list(bp._split_sizes))
                 checks.append((f"should {s} {b} {pt}", f"{call_text('shouldPreconditionDims', tg['shouldPreconditionDims'], (ss, pt))} == {lit(want, parse_type('option[list[bool]]'))}"))
+                checks.append((f"exponent {s} {b} {pt}", f"{call_text('exponentForPreconditioner', tg['exponentForPreconditioner'], (ss, pt))} == {lit(int(pre.exponent_for_preconditioner()), parse_type('option[int]'))}"))
+                if len(checks) % 3 == 0:
+                    for rc in (0, 1, -2):
+                        pre._compression_rank = rc
+                        want = to_plain([list(x) for x in pre.shapes_for_preconditioners()])
+                        checks.append((f"shapes {s} {b} {pt} {rc}", f"{call_text('shapesForPreconditioners', tg['shapesForPreconditioners'], (ss, pt, rc))} == {lit(want, parse_type('list[list[int]]'))}"))
+                    k = sum(pre.should_precondition_dims())
+                    ps = list(range(3 * k + 1))
+                    for (st_, en_) in ((0, k), (k, 2 * k), (1, k)):
+                        try:
+                            want = to_plain(pre._preconds_for_grad(ps, len(ss), st_, en_))
+                        except AssertionError:
+                            want = None
+                        checks.append((f"slots {s} {b} {pt} {st_} {en_}", f"{call_text('precondsForGrad', tg['precondsForGrad'], (ps, pt, len(ss), st_, en_))} == {lit(want, parse_type('option[list[option[int]]]'))}"))
         for b in (0, 2, 3, 4):
             for md in (2, 3, 6, 16):
                 sh = reshaper._derive_shapes(reshaper.Options(merge_dims=md, block_size=b), P(s))
@@ -293,6 +357,14 @@ def main():
     for c, dd in itertools.product(range(-6, 7), range(0, 12)):
         checks.append((f"precond_dim {c} {dd}", f"{call_text('precondDim', tg['precondDim'], (c, dd))} == {lit(int(ds._precond_dim(c, dd)), 'int')}"))
         checks.append((f"should_compress {c} {dd}", f"{call_text('shouldCompress', tg['shouldCompress'], (c, dd))} == {lit(bool(ds._should_compress(c, dd)), 'bool')}"))
+    from precondition.tearfree import grafting
+    import jax.numpy as jnp
+    for s in shapes[:25]:
+        for r1 in (True, False):
+            for gt in (0, 3, 8, 4096):
+                o = grafting.Options(skip_preconditioning_rank1=r1, skip_preconditioning_any_dim_gt=gt)
+                want = bool(grafting._masked(grafting._mask_skipped(o, jnp.zeros(s))))
+                checks.append((f"mask {s} {r1} {gt}", f"{call_text('tfMaskSkipped', tg['tfMaskSkipped'], (r1, gt, s))} == {lit(want, 'bool')}"))
     for n, dd in itertools.product(range(0, 14), range(1, 7)):
         checks.append((f"to_pad {n} {dd}", f"PrecondVerif.Gen.toPad ({n} : Int) ({dd} : Int) == {lit(-n % dd, 'int')}"))
     bad += ["real-target mismatch: " + x for x in lean_eval(text, checks)]
